@@ -86,6 +86,14 @@ func spec_shaped(rs FuncResults, n int) bool {
 //@   loop 2 invariant forall j int :: 0 <= j && j < at ==> len(finalResults[j]) >= 1
 //@   note whatever the per-slot iterator yields (it is treated as unknown code that may do anything except rewire a resolver), a function WITH a syntax node gets exactly n non-empty lists - a bodyless declaration too (each slot falls back to its declared type)
 
+func spec_asField(n ast.Node) *ast.Field { f, _ := n.(*ast.Field); return f }
+
+func spec_asValueSpec(n ast.Node) *ast.ValueSpec { f, _ := n.(*ast.ValueSpec); return f }
+
+func spec_asTypeSpec(n ast.Node) *ast.TypeSpec { f, _ := n.(*ast.TypeSpec); return f }
+
+func spec_asImportSpec(n ast.Node) *ast.ImportSpec { f, _ := n.(*ast.ImportSpec); return f }
+
 func spec_asReturnStmt(n ast.Node) *ast.ReturnStmt { r, _ := n.(*ast.ReturnStmt); return r }
 
 //@ func funcResultsResolver.resultsFromAstAt
@@ -279,6 +287,11 @@ func spec_pkgInfoOf(p Package) *pkgInfo { pi, _ := p.(*pkgInfo); return pi }
 //@   ensures spec_pkgInfoOf(result).imports != nil && len(spec_pkgInfoOf(result).imports) == 0
 //@   note a new package starts with an EMPTY import table (its dependencies are not registered yet) and constructing it touches no other package's table (C13: nothing is resolved before registration is complete)
 //@   lit 3 ensures result
+//@   lit 3 ensures spec_asField(node) != nil && spec_asField(node).Comment != nil && spec_asField(node).Comment.Pos() != spec_asField(node).Pos() ==> p.endLineToTrailingCommentGroup[fileLine{p.Package.Fset.Position(spec_asField(node).Pos()).Filename, p.Package.Fset.Position(spec_asField(node).Pos()).Line}] != nil
+//@   lit 3 ensures spec_asValueSpec(node) != nil && spec_asValueSpec(node).Comment != nil && spec_asValueSpec(node).Comment.Pos() != spec_asValueSpec(node).Pos() ==> p.endLineToTrailingCommentGroup[fileLine{p.Package.Fset.Position(spec_asValueSpec(node).Pos()).Filename, p.Package.Fset.Position(spec_asValueSpec(node).Pos()).Line}] != nil
+//@   lit 3 ensures spec_asTypeSpec(node) != nil && spec_asTypeSpec(node).Comment != nil && spec_asTypeSpec(node).Comment.Pos() != spec_asTypeSpec(node).Pos() ==> p.endLineToTrailingCommentGroup[fileLine{p.Package.Fset.Position(spec_asTypeSpec(node).Pos()).Filename, p.Package.Fset.Position(spec_asTypeSpec(node).Pos()).Line}] != nil
+//@   lit 3 ensures spec_asImportSpec(node) != nil && spec_asImportSpec(node).Comment != nil && spec_asImportSpec(node).Comment.Pos() != spec_asImportSpec(node).Pos() ==> p.endLineToTrailingCommentGroup[fileLine{p.Package.Fset.Position(spec_asImportSpec(node).Pos()).Filename, p.Package.Fset.Position(spec_asImportSpec(node).Pos()).Line}] != nil
+//@   note (lit 3 ensures 1-4, C12 completeness of the trailing index) after the callback has seen a field / value spec / type spec / import spec that HAS a trailing comment, the trailing index holds a comment group for the declaration's own line - an entry filed earlier for that line without a comment (nil) never blocks it
 //@   lit 4 invariant p != nil && p.Package != nil && p.Package.TypesInfo != nil && p.signatures != nil
 //@   lit 4 invariant done2
 //@   note (lit 4 invariant done2, C14) the call-site walk starts only after the declaration walk has been through EVERY file (loop 2 ran to its normal exit): whatever file a function is declared in, its *ast.FuncDecl / *ast.FuncLit is in the signature index before any call site can claim the signature - the index ResultsOf starts from does not depend on the order of the files
